@@ -34,6 +34,7 @@ def gen_case(tp, tier):
         'stop': n_tempo > 0 and tp.draw(6) == 0,
         'inject': tp.draw(3) == 0,
         'inf': tp.draw(8) == 0,
+        'cmdperiod': tp.draw(6) == 0,
         'readd': tp.draw(3) == 0,
     }
     tasks = []
@@ -97,6 +98,8 @@ def _gen_op(tp, feat, n_tasks, n_tempo, clocks, self_task, inner):
         return ['clear', tp.choice(clocks)]
     if feat['stop'] and r == 4 and n_tempo:
         return ['stop', tp.draw(n_tempo)]
+    if feat.get('cmdperiod') and r == 5:
+        return ['cmdperiod']
     # a scheduling
     t = tp.draw(n_tasks)
     if inner and t == self_task:
@@ -273,7 +276,7 @@ class Model:
         k = self.k
         me = k.current.idx
         p = self.pending.setdefault(cname, {})
-        if me in self.in_clear and self.in_clear[me] == cname:
+        if me in self.in_clear and self.in_clear[me] in (cname, '*'):
             # pops performed by clear(): cancellations
             p.pop(task, None)
             self.cancelled.setdefault(cname, set()).add(task)
@@ -461,6 +464,8 @@ def run_case(case, tape, ctx):
     import sc3.base.stream as sstm
     import sc3.base.functions as sfn
     import sc3.base.responders as srpd
+    import sc3.base.systemactions as sac
+    sac.CmdPeriod.free_servers = False      # no server in this world
     from sim import osc as simosc
 
     clocks = {'sys': sclk.SystemClock, 'app': sclk.AppClock}
@@ -574,6 +579,31 @@ def run_case(case, tape, ctx):
                              f'task(s), queue empty={q._orig_empty()}')
                     m.cancelled.setdefault(cname, set()).update(p.keys())
                     p.clear()
+            return
+        if kind == 'cmdperiod':
+            # clears every clock's queue and stops the (non permanent)
+            # TempoClocks: nothing is pending any more when it returns
+            live = [cn for cn in clocks if cn not in m.stopping]
+            with main._main_lock:
+                m.in_clear[me] = '*'
+                try:
+                    sac.CmdPeriod.run()
+                finally:
+                    m.in_clear.pop(me, None)
+                for cn in live:
+                    c = clocks[cn]
+                    p = m.pending.get(cn, {})
+                    q = c._scheduler.queue if cn == 'app' else c._task_queue
+                    if p or not q._orig_empty():
+                        viol.add('C08-6', f'{cn[0]}-cmdperiod-left-pending',
+                                 f'CmdPeriod.run() left {len(p)} '
+                                 f'model-pending task(s) on {cn}, queue '
+                                 f'empty={q._orig_empty()}')
+                        m.cancelled.setdefault(cn, set()).update(p.keys())
+                        p.clear()
+                    if cn.startswith('t'):
+                        m.stopping.add(cn)
+            m.bump('cmdperiod')
             return
         if kind == 'stop':
             cname = f't{op[1]}'
